@@ -22,8 +22,10 @@ MANIFEST = dict(
          "(ends_iff_Matches, incl. the closures of * + {n,m}) and the driver's evaluator computes it (driver_evaluates_spec); the prolog/repeat/split/epilog code shape of "
          "counted repeats denotes exactly e{n,m} for all n <= m (range_table, range_concat); forward-from-the-atom + exhaustive-backward-from-the-atom equals a whole match "
          "with atoms inside groups, alternation branches and + bodies (decompose); everything the VM model reports (callback lengths, *matches, also in the scan mode of "
-         "`matches`) comes from a reachable fiber at RE_OPCODE_MATCH (vm_reports_reachable, any bytecode). NOT proved: reachable-at-MATCH implies a match for * + {n,m} (counter "
-         "stack invariant; proved for the loop-free fragment in Thm/C02), VM completeness with epsilon-loops, atom extraction, Aho-Corasick. That gap is covered by SAMPLING on "
+         "`matches`) comes from a reachable fiber at RE_OPCODE_MATCH (vm_reports_reachable, any bytecode); and on the code of the emit model the VM is SOUND for every expression "
+         "built from literals, ., \\w\\W\\s\\S\\d\\D, ^ $ \\b \\B, .{n,m}, concatenation, alternation, * and + (greedy or lazy), bracket classes, byte mode, forward code (vm_sound_partial). "
+         "NOT proved: counted repeats e{n,m} of a non-dot body inside the VM proof (counter stack), wide mode, backward code, scan mode, VM completeness with "
+         "epsilon-loops, atom extraction, Aho-Corasick. That gap is covered by SAMPLING on "
          "every run: generated regexes (<= 12 nodes, all-greedy / all-lazy, anchors, word boundaries, classes, /i /s, nocase ascii wide fullword, atoms forced into groups, "
          "branches and repeats) x buffers (< 1024 bytes) through the real engine vs. the compiled Lean specification (complete match lists, `matches` verdicts through literal "
          "and external operands), the parser AST tie (incl. class bitmaps and greedy flags), the real bytecode through the C VM and the Lean VM model, the whole-expression code "
